@@ -41,6 +41,7 @@ MODES = {
     "o3": ("gcc", ["-std=c11", "-O3", "-msse4.2", "-DNDEBUG"]),
     "clang": ("clang-14", ["-std=c11", "-O2", "-msse4.2", "-DNDEBUG"]),
     "tsan": ("gcc", ["-std=c11", "-O1", "-g", "-msse4.2", "-fsanitize=thread"]),
+    "msan": ("clang-14", ["-std=c11", "-O1", "-g", "-msse4.2", "-fsanitize=memory", "-fno-omit-frame-pointer"]),
 }
 
 WRAPS = "-Wl,--wrap=malloc,--wrap=calloc,--wrap=realloc,--wrap=free,--wrap=edn_arena_alloc"
@@ -221,8 +222,10 @@ class RunResult:
         self.stderr = stderr
 
 
-def _limits(stack_kb=None, cpu_s=None):
+def _limits(stack_kb=None, cpu_s=None, as_mb=None):
     def f():
+        if as_mb:
+            resource.setrlimit(resource.RLIMIT_AS, (as_mb << 20, as_mb << 20))
         if stack_kb:
             resource.setrlimit(resource.RLIMIT_STACK, (stack_kb * 1024, stack_kb * 1024))
         if cpu_s:
@@ -230,7 +233,7 @@ def _limits(stack_kb=None, cpu_s=None):
     return f
 
 
-def run_lines(exe, lines, stack_kb=None, cpu_s=None, timeout=3600, env=None):
+def run_lines(exe, lines, stack_kb=None, cpu_s=None, timeout=3600, env=None, as_mb=None):
     """Feed lines to a line-protocol program; returns RunResult.  A crash is
     attributed to the first input line that has no output line."""
     data = ("\n".join(lines) + "\n").encode()
@@ -241,7 +244,7 @@ def run_lines(exe, lines, stack_kb=None, cpu_s=None, timeout=3600, env=None):
         e.update(env)
     try:
         p = subprocess.run([exe] if isinstance(exe, str) else exe, input=data, stdout=subprocess.PIPE,
-                           stderr=subprocess.PIPE, preexec_fn=_limits(stack_kb, cpu_s), timeout=timeout, env=e)
+                           stderr=subprocess.PIPE, preexec_fn=_limits(stack_kb, cpu_s, as_mb), timeout=timeout, env=e)
         rc, out, err = p.returncode, p.stdout, p.stderr
     except subprocess.TimeoutExpired as ex:
         rc, out, err = -999, ex.stdout or b"", (ex.stderr or b"") + b"\nTIMEOUT"
